@@ -1284,3 +1284,19 @@ package sdf
 //@   let dq = r.Evaluate(q)
 //@   ensures [one-lipschitz] isnil(err) ==> sq(dp - dq) <= p.Sub(q).Length2()
 //@ end
+
+//-----------------------------------------------------------------------------
+// C05 / C08: the degeneracy filter of the mesh generators rejects exactly the
+// elements with two identical vertices
+
+//@ func Triangle3.Degenerate
+//@   property C05
+//@   requires tolerance == 0
+//@   ensures [iff-two-vertices-equal] r <==> (t[0] == t[1] || t[1] == t[2] || t[2] == t[0])
+//@ end
+
+//@ func Line2.Degenerate
+//@   property C08
+//@   requires tolerance == 0
+//@   ensures [iff-end-points-equal] r <==> a[0] == a[1]
+//@ end
